@@ -58,7 +58,7 @@ def run(rep, tier, seed):
                 "comment, string literal and misplaced extends/import, verdict from the push-down acceptor; (ii) every truncation "
                 "(each byte offset) of every accepted sequence; (iii) all sequences of <=2 / <=3 lexeme classes (55 classes incl. "
                 "multi-byte letters, invalid UTF-8, control bytes, unterminated literals) in 8 (quick) / 13 keyword contexts, each also cut off right behind its last lexeme; each under "
-                "default and custom delimiters, parsed through Set.Parse and Set.GetTemplate in a worker process with a 5 s "
+                "default and custom delimiters, parsed through Set.Parse and Set.GetTemplate in a worker process with a 10 s "
                 "deadline and a goroutine count; non-trivial: all; distinct by (configuration, source)")
     # design level: the goroutine protocol
     r = run_tlc(wd, "JetLexProc.tla", "MC_LexProc.cfg", workers=4, heap="2g", timeout=600, fpset_small=False)
